@@ -26,7 +26,8 @@ var props = map[string]propSpec{
 	"C03": {Engine: "world", QuickRuns: 3000, QuickSecs: 60, ThoroughS: 600, Components: worldComponents},
 	"C04": {Engine: "world", Cover: []string{"C05|", "C01|due"}, QuickRuns: 3000, QuickSecs: 60, ThoroughS: 600, Components: worldComponents,
 		MinReach: []string{"lifetime_expired_refused", "revalidation_refused", "due_check_ok_refresh", "due_check_ok_validate"}},
-	"C05": {Engine: "world", Cover: []string{"C05|"}, QuickRuns: 3000, QuickSecs: 60, ThoroughS: 600, Components: worldComponents,
+	// C05 says "… and never past the session lifetime" (implemented as C04.A3)
+	"C05": {Engine: "world", Owns: []string{"C04.A3-lifetime-bound"}, Cover: []string{"C05|"}, QuickRuns: 3000, QuickSecs: 60, ThoroughS: 600, Components: worldComponents,
 		MinReach: []string{"grace_fallback_served", "grace_expired_refused", "metric_provider_error_fallback"}},
 	"C06": {Engine: "world", Cover: []string{"C11.A1"}, QuickRuns: 3000, QuickSecs: 60, ThoroughS: 600, Components: worldComponents,
 		MinReach: []string{"callback_variant_crossed", "callback_variant_state-equals-cookie", "callback_variant_replay", "proxy_session_issued"}},
